@@ -86,6 +86,19 @@ def check_cluster_masks(P, R, rule="IDX.mask-eq"):
                 idx = cmp_.comparators[0] if is_label(cone(du, cmp_.left, du.stmt_of(sub_), interproc=False)) else cmp_.left
                 loopvar = isinstance(idx, ast.Name) and any((isinstance(p_, ast.For) and isinstance(p_.target, ast.Name) and p_.target.id == idx.id) or (isinstance(p_, (ast.ListComp, ast.GeneratorExp, ast.DictComp)) and any(isinstance(g_.target, ast.Name) and g_.target.id == idx.id for g_ in p_.generators)) for p_ in _parents(sub_))
                 R.check(ok and loopvar, rule, key, src(sub_)[:60], "samples assigned to the cluster being accumulated", f"cluster statistics are accumulated over `{src(cmp_)}`, not over the samples whose nearest centroid *is* the cluster", sub_.lineno)
+                # ... and the loop visits every cluster that has members: range(n) / all ids, or ids filtered by `count > 0`
+                if isinstance(idx, ast.Name):
+                    for p_ in _parents(sub_):
+                        it_ = p_.iter if isinstance(p_, ast.For) and isinstance(p_.target, ast.Name) and p_.target.id == idx.id else None
+                        if it_ is None:
+                            continue
+                        ci_ = cone(du, it_, p_, interproc=False)
+                        filt = [x for x in ci_.nodes if isinstance(x, ast.Compare) and len(x.ops) == 1 and isinstance(x.comparators[0], ast.Constant) and isinstance(x.comparators[0].value, (int, float)) and not isinstance(x.comparators[0].value, bool)]
+                        for x in filt:
+                            k_, op_ = x.comparators[0].value, x.ops[0]
+                            nonempty = (isinstance(op_, ast.Gt) and k_ == 0) or (isinstance(op_, ast.GtE) and k_ == 1) or (isinstance(op_, ast.NotEq) and k_ == 0)
+                            R.check(nonempty, "COVER.clusters", key, f"for {idx.id} in {src(it_)[:50]}", "every cluster with members is visited", f"the loop over the clusters is restricted by `{src(x)}`: clusters with members that fail this test get no contribution from this block, so the per-block sums depend on how the rows are chunked", p_.lineno)
+                        break
             else:
                 R.check(ok, rule, key, src(sub_)[:60], why, f"cluster statistics are not accumulated over the samples whose nearest centroid *is* the cluster: {why}", sub_.lineno)
         for node_, kind_, ok_, why_ in _grp.scatter_sites(f, du, is_label, f.value_params[0]):
@@ -124,13 +137,19 @@ def run(P, R, tier):
         ax = next((const_value(k.value) for k in c.keywords if k.arg == "axis"), const_value(c.args[1]) if len(c.args) > 1 else None)
         R.check(ax == 0, "SHAPE.argmin", g.key, src(c), "argmin over the cluster axis of a (clusters, samples) array", f"argmin is taken over axis {ax}: with distances of shape (clusters, samples) this picks the nearest *sample* of each cluster, not the nearest centroid of each sample", c.lineno)
     from ..engines import dtype as _dt
-    _dt.check_function(P, R, "kmeans:e_step", raw_params=("data",))
+    _dt.check_function(P, R, "kmeans:e_step", raw_params=("data", "means"))
     from ..engines import proto as _pp
     _pp.check_pairwise_folds(P, R, ['kmeans', 'utils'])
     from ..engines import proto as _pbs
     _pbs.check_block_sums(P, R, "kmeans:m_step")
     from ..engines import traps as _traps
     _traps.check(P, R, ['kmeans', 'utils'], scope='(kmeans:(e_step|m_step|get_centroids_distance|get_closest_centroid_index|KMeansMachine\\.fit)|utils:)')
+    from ..engines import own as _oro
+    _own_ro = _oro.Own(P)
+    n_ro = 0
+    n_ro += _oro.check_param_readonly(P, R, _own_ro, 'kmeans:m_step', ['stats'], why='the statistics / data handed to one step are changed by it: a second step from the same object (several clients adapted from one set of statistics, a repeated call) computes from different values')
+    n_ro += _oro.check_param_readonly(P, R, _own_ro, 'kmeans:e_step', ['data', 'means'], why='the statistics / data handed to one step are changed by it: a second step from the same object (several clients adapted from one set of statistics, a repeated call) computes from different values')
+    R.floor('OWN.readonly parameters', n_ro, 3)
 
 
 EXPLANATION += ' Also: (ACC.sum) the per-block statistics are added (+=) from zero in the M-step; (DTYPE.raw); (COVER.pairs); (DIM.ABS) no dimensioned quantity is tested against an absolute constant.'
